@@ -23,7 +23,11 @@ RULE = ("histories of 1..3 instants with 1..3 error sources each (handler error 
         "error, unknown event, ControlBlock abort/shutdown events, abort() calls with ordinary and cancellation "
         "errors, a CBlock function raising, a CBlock whose on_output event hits a raising handler, a failing "
         "monitored block task, bare simtask.cancel(), shutdown() in a task, SIGTERM and failing/ending supporting "
-        "coroutines in run() mode), optionally abort() before the start or a failing synchronous init routine, "
+        "coroutines in run() mode); the handler errors come in every exception family SBlock.event tells apart (generic, "
+        "EdzedCircuitError, EdzedInvalidState, EdzedUnknownEvent and TypeError raised by the handler itself -- next to an "
+        "unknown event type and wrong parameters) and on both routes (ExtEvent with a catching sender / through the "
+        "simulator task); optionally abort() before the start, a failing synchronous init routine, or one that fails EARLY "
+        "(reached through an event with a catching sender at the first yield of the start-up or during the async init), "
         "optionally with blocks whose async init / state restoration / stop / stop_async fail, a persistent block that "
         "is still uninitialised when the states are saved, two asynchronous clean-ups of which the one with the "
         "shorter timeout times out (all harmless); all "
@@ -40,8 +44,33 @@ IMMEDIATE = ('handlerErr', 'paramErr', 'unknownEvt', 'nestedUnknown', 'fsmSelfUn
              'abortX', 'abortC')
 DEFERRED = ('armCalc', 'armCalcHandler', 'rawCancel', 'monTrigger', 'shutdownTask')
 RUN_ONLY = ('supFail', 'sigterm')
+# the exception families SBlock.event can tell apart: the handler's own code raises …  ('handlerErr' / 'armCalcHandler'
+# without a suffix = 'g'); delivered from outside the simulator task (an ExtEvent whose sender catches) and through it
+# (the on_output event of a CBlock evaluated by the simulator)
+FAMILIES = {'g': RuntimeError, 'c': edzed.EdzedCircuitError, 'i': edzed.EdzedInvalidState,
+            'u': edzed.EdzedUnknownEvent, 't': TypeError}
+IMMEDIATE_FAM = tuple('handlerErr' + f.upper() for f in 'ciut')
+DEFERRED_FAM = tuple('armCalcHandler' + f.upper() for f in 'ciut')
 FATAL = ('handlerErr', 'ctrlAbort', 'ctrlShutdown', 'abortX', 'abortC', 'armCalc', 'armCalcHandler',
          'rawCancel', 'monTrigger', 'shutdownTask', 'supFail', 'sigterm')
+EARLY_ID = 950
+
+
+def split_kind(kind):
+    """'handlerErrC' -> ('handlerErr', 'c')"""
+    for base in ('handlerErr', 'armCalcHandler'):
+        if kind.startswith(base):
+            return base, (kind[len(base):].lower() or 'g')
+    return kind, None
+
+
+def is_fatal(s):
+    """s: a numbered source.  A handler that raises EdzedUnknownEvent ITSELF declares the event unknown (that is how
+    `_event()` reports unknown types): reported to the caller only -- unless it happens inside the simulator task,
+    where every exception ends the simulation"""
+    if s[0] == 'handlerErr':
+        return s[2] != 'u'
+    return s[0] in FATAL
 NSUP = 3        # supporting coroutines in run mode: #0 is the driver, #1 and #2 can fail
 
 
@@ -52,7 +81,10 @@ def _number(instants):
     for inst in instants:
         row = []
         for kind in inst:
-            if kind == 'supFail':
+            base, fam = split_kind(kind)
+            if fam is not None:
+                row.append([base, next(k), fam])
+            elif kind == 'supFail':
                 row.append([kind, None, next(k)])     # index assigned below
             elif kind in ('paramErr', 'unknownEvt', 'nestedUnknown', 'fsmSelfUnknown', 'ctrlShutdown', 'abortC', 'rawCancel', 'shutdownTask', 'sigterm'):
                 row.append([kind])
@@ -81,9 +113,9 @@ def _valid(instants, mode):
     if flat.count('supFail') > 2 or flat.count('rawCancel') > 1 or flat.count('sigterm') > 1:
         return False
     for inst in instants:
-        if sum(1 for k in inst if k in ('armCalc', 'armCalcHandler')) > 1:
+        if sum(1 for k in inst if k.startswith('armCalc')) > 1:
             return False
-    if flat.count('armCalc') > 1 or flat.count('armCalcHandler') > 1 or flat.count('monTrigger') > 2:
+    if flat.count('armCalc') > 1 or sum(1 for k in flat if k.startswith('armCalcHandler')) > 1 or flat.count('monTrigger') > 2:
         return False
     return True
 
@@ -100,6 +132,22 @@ def scenarios(rng, tier):
                 yield mk(mode, [[a, b]])
                 if tier == 'thorough':
                     yield mk(mode, [[a], [b]])
+    # every exception family of a handler error, alone and paired (both orders) with every other kind, both routes
+    for mode, kinds in (('forever', kinds_f), ('run', kinds_r)):
+        for x in IMMEDIATE_FAM + DEFERRED_FAM:
+            yield mk(mode, [[x]])
+            for b in kinds:
+                for inst in ([x, b], [b, x]):
+                    if _valid([inst], mode):
+                        yield mk(mode, [inst])
+    # a synchronous init routine failing EARLY: reached through an event with a catching sender at the first yield of
+    # the start-up (step marker 0; forever mode only) / during the asynchronous initialisation (marker 1)
+    for mode, phases in (('forever', (0, 1)), ('run', (1,))):
+        for ph in phases:
+            yield mk(mode, [], early_init=ph)
+            yield mk(mode, [['handlerErr']], early_init=ph)
+            yield mk(mode, [['abortX', 'shutdownTask']], early_init=ph)
+            yield mk(mode, [], early_init=ph, harmless=['asyncinit', 'restore'])
     # start-up variants
     for mode in ('forever', 'run'):
         yield mk(mode, [], pre_abort='x')
@@ -130,7 +178,7 @@ def scenarios(rng, tier):
     n = 600 if tier == 'quick' else 60000
     for _ in range(n):
         mode = rng.choice(['forever', 'run'])
-        kinds = kinds_r if mode == 'run' else kinds_f
+        kinds = (kinds_r if mode == 'run' else kinds_f) + IMMEDIATE_FAM + DEFERRED_FAM
         for _try in range(20):
             instants = [[rng.choice(kinds) for _ in range(rng.choice([1, 2, 2, 3]))]
                         for _ in range(rng.choice([1, 2, 2, 3]))]
@@ -141,12 +189,16 @@ def scenarios(rng, tier):
         harmless = [h for h in ('asyncinit', 'restore', 'stop', 'stopasync', 'lateuninit', 'twostop')
                     if rng.random() < 0.15]
         pre = rng.choice([None] * 12 + ['x', 'c'])
-        yield mk(mode, instants, pre_abort=pre, init_err=rng.random() < 0.04, harmless=harmless)
+        init_err = rng.random() < 0.04
+        early = None
+        if pre is None and not init_err and rng.random() < 0.05:
+            early = rng.choice([0, 1]) if mode == 'forever' else 1
+        yield mk(mode, instants, pre_abort=pre, init_err=init_err, harmless=harmless, early_init=early)
 
 
-def mk(mode, instants, pre_abort=None, init_err=False, harmless=()):
+def mk(mode, instants, pre_abort=None, init_err=False, harmless=(), early_init=None):
     return {'mode': mode, 'ops': _number(instants), 'pre_abort': pre_abort, 'init_err': bool(init_err),
-            'harmless': list(harmless)}
+            'harmless': list(harmless), 'early_init': early_init}
 
 
 def shrink(scn):
@@ -160,6 +212,8 @@ def shrink(scn):
         yield {**scn, 'harmless': []}
     if scn['pre_abort']:
         yield {**scn, 'pre_abort': None}
+    if scn.get('early_init') is not None:
+        yield {**scn, 'early_init': None}
 
 
 # ---------------------------------------------------------------- encoding of exceptions
@@ -178,10 +232,14 @@ def enc_err(e):
         if msg.startswith('Signal'):
             return 'c4'
         return 'c?' + msg
+    if isinstance(e, Exception) and str(e).startswith('src'):
+        return 'x' + str(e)[3:]         # the exception object of a scripted source, whatever its class
     if isinstance(e, edzed.EdzedCircuitError):
         cause = e.__cause__
-        cid = enc_err(cause)[1:] if isinstance(cause, RuntimeError) else '?'
+        cid = enc_err(cause)[1:] if cause is not None and str(cause).startswith('src') else '?'
         msg = str(e)
+        if msg.endswith(': not initialized'):
+            return 'ni'
         if 'during handling of event' in msg:
             return 'w' + cid
         if 'error reported by' in msg:
@@ -199,6 +257,8 @@ def enc_rf(e):
 def reply_of(exc):
     if exc is None:
         return 'ok'
+    if str(exc).startswith('src'):
+        return 'raised:' + enc_err(exc)     # a scripted exception, whatever its class
     if isinstance(exc, edzed.EdzedInvalidState):
         return 'InvalidState'
     if isinstance(exc, edzed.EdzedUnknownEvent):
@@ -215,12 +275,13 @@ def reply_of(exc):
 class Boom(edzed.SBlock):
     """handlers that raise inside"""
 
-    def _event_boom(self, *, eid, **_data):
-        raise RuntimeError(f'src{eid}')
+    def _event_boom(self, *, eid, fam='g', **_data):
+        raise FAMILIES[fam](f'src{eid}')
 
     def _event_boom2(self, *, value, **_data):
         if value:
-            raise RuntimeError(f'src{value}')
+            eid, fam = value
+            raise FAMILIES[fam](f'src{eid}')
 
     def init_regular(self):
         self.set_output(None)
@@ -257,6 +318,30 @@ class Mon(edzed.AddonMainTask, edzed.SBlock):
 class BadInit(edzed.SBlock):
     def init_regular(self):
         raise RuntimeError('src900')
+
+
+class EarlyBad(edzed.SBlock):
+    """its synchronous init routine fails when it is called for the first time (a second attempt would succeed);
+    reached EARLY through an event"""
+    def __init__(self, *args, **kwargs):
+        self.init_calls = 0
+        super().__init__(*args, **kwargs)
+
+    def init_regular(self):
+        self.init_calls += 1
+        if self.init_calls == 1:
+            raise RuntimeError(f'src{EARLY_ID}')
+        self.set_output(0)
+
+    def _event_put(self, *, value, **_data):
+        self.set_output(value)
+
+
+class SlowInit(edzed.AddonAsync, edzed.SBlock):
+    """keeps the start-up in its asynchronous phase for 10 ms"""
+    async def init_async(self):
+        await asyncio.sleep(0.01)
+        self.set_output(1)
 
 
 class BadAsyncInit(edzed.AddonAsync, edzed.SBlock):
@@ -367,6 +452,10 @@ def build(scn):
         SlowStop('slow_b', duration=0.1, stop_timeout=1.0)
     if scn['init_err']:
         BadInit('bad_init')
+    if scn.get('early_init') is not None:
+        ctx['early'] = EarlyBad('bad_early')
+        if scn['early_init'] == 1:
+            SlowInit('slow_init', init_timeout=1)
     if 'lateuninit' in h:
         if circuit.persistent_dict is None:
             circuit.set_persistent_data({})
@@ -399,7 +488,7 @@ def fire(rec, ctx, s, sups):
     exc = None
     try:
         if kind == 'handlerErr':
-            edzed.ExtEvent(ctx['boom'], 'boom').send(eid=s[1])
+            edzed.ExtEvent(ctx['boom'], 'boom').send(eid=s[1], fam=s[2])
         elif kind == 'paramErr':
             edzed.ExtEvent(ctx['inp'], 'put').send()
         elif kind == 'unknownEvt':
@@ -420,7 +509,7 @@ def fire(rec, ctx, s, sups):
         elif kind == 'armCalc':
             edzed.ExtEvent(ctx['trig'], 'put').send(s[1])
         elif kind == 'armCalcHandler':
-            edzed.ExtEvent(ctx['trig2'], 'put').send(s[1])
+            edzed.ExtEvent(ctx['trig2'], 'put').send((s[1], s[2]))
         elif kind == 'rawCancel':
             # an external cancellation of a simulation that is already stopping would abort the
             # clean-up; that case is excluded (DESIGN.md section 6)
@@ -473,8 +562,25 @@ def run_impl(scn):
         rec.add('abort x800' if pre == 'x' else 'abort c1', 'ok', circuit)
     start_line = 'start ' + ('900' if scn['init_err'] else '-')
 
+    async def early(phase):
+        """an external event reaches the uninitialised block during the start-up; its early initialisation fails in
+        the synchronous routine; the sender catches the exception"""
+        if phase == 1:
+            await asyncio.sleep(0.005)
+        exc = None
+        try:
+            edzed.ExtEvent(ctx['early'], 'put').send(1)
+        except Exception as err:
+            exc = err
+        res['early_reply'] = reply_of(exc)
+        res['early_marker'] = ctx['early'].init_steps_completed
+        rec.lines.append(f'errreg eop earlyInitFail {EARLY_ID}')
+        rec.trace.append(reply_of(exc))
+
     async def script(loop, sups):
         """the driver: returns normally at the end of the script"""
+        if scn.get('early_init') == 1:
+            ctx['early_task'] = asyncio.create_task(early(1))
         try:
             await circuit.wait_init()
         except Exception as err:    # start-up failed (InvalidState; AttributeError after an abort before the start)
@@ -499,6 +605,8 @@ def run_impl(scn):
     if scn['mode'] == 'forever':
         async def main(loop):
             simtask = asyncio.create_task(circuit.run_forever())
+            if scn.get('early_init') == 0:
+                ctx['early_task'] = asyncio.create_task(early(0))
             await script(loop, {})
             await vtime.advance_to(loop, loop.now_us + 3_000_000)     # let asynchronous clean-up finish
             res['simtask_done_before_shutdown'] = simtask.done()
@@ -572,12 +680,15 @@ def run_impl(scn):
     # post-mortem: is the circuit still not ready?
     rec.lines.append(f"errreg result {NSUP if scn['mode'] == 'run' else '-'}")
     rec.trace.append(f"rf={enc_rf(res['rf'])} sd={enc_err(res['sd'])} run={enc_err(res['run'])}")
-    fatal = any(s[0] in FATAL for s, _ in rec.fired) or bool(pre) or scn['init_err']
+    fatal = any(is_fatal(s) for s, _ in rec.fired) or bool(pre) or scn['init_err'] or scn.get('early_init') is not None
     tags = [f"mode={scn['mode']}", f"instants={len(scn['ops'])}"]
     tags += [f"first={scn['ops'][0][0][0]}" if scn['ops'] else 'first=-']
     tags += ['fatal' if fatal else 'harmless-only']
     if scn['harmless']:
         tags.append('with-harmless-failures')
+    if scn.get('early_init') is not None:
+        tags.append(f"early-init-failure-phase{scn['early_init']}")
+    tags += sorted({f'family={s[2]}:{s[0]}' for s, _ in rec.fired if s[0] in ('handlerErr', 'armCalcHandler')})
     if res['driver_cancelled']:
         tags.append('driver-cancelled')
     return {'lines': rec.lines, 'trace': rec.trace, 'tags': tags, 'nontrivial': fatal,
@@ -586,6 +697,8 @@ def run_impl(scn):
             'final_error': enc_err(circuit.error), 'final_error_id': id(circuit.error),
             'rf': enc_rf(res['rf']), 'rf_id': id(res['rf']), 'sd': enc_err(res['sd']), 'run': enc_err(res['run']),
             'sd_tasks': [enc_err(e) for e in res.get('sd_tasks', [])],
+            'early_reply': res.get('early_reply'), 'early_marker': res.get('early_marker'),
+            'early_calls': ctx['early'].init_calls if 'early' in ctx else None,
             'ready_end': circuit.is_ready(), 'done_before_shutdown': res['simtask_done_before_shutdown'],
             'driver_cancelled': res['driver_cancelled']}
 
@@ -600,9 +713,13 @@ def expected_winner(scn):
         return 'x800' if scn['pre_abort'] == 'x' else 'c1'
     if scn['init_err']:
         return 'x900'
+    if scn.get('early_init') is not None:
+        return 'ni'     # the failed init step is never attempted again: the block is found uninitialised
     for inst in scn['ops']:
         imm = {'handlerErr': 'w', 'ctrlAbort': 'r', 'abortX': 'x'}
         for s in inst:
+            if s[0] == 'handlerErr' and s[2] == 'u':
+                continue        # the handler itself says "unknown event": reported to the caller only
             if s[0] in imm:
                 return imm[s[0]] + str(s[1])
             if s[0] == 'ctrlShutdown':
@@ -626,7 +743,10 @@ def expected_winner(scn):
                     return 'c0'
                 calc = [x for x in inst if x[0] in ('armCalc', 'armCalcHandler')]
                 if calc:
-                    return ('x' if calc[0][0] == 'armCalc' else 'w') + str(calc[0][1])
+                    # inside the simulator task every exception ends the simulation; an error inside a HANDLER is
+                    # recorded (wrapped) before -- except the handler's own EdzedUnknownEvent
+                    direct = calc[0][0] == 'armCalc' or calc[0][2] == 'u'
+                    return ('x' if direct else 'w') + str(calc[0][1])
             elif item[0] == 'monTrigger':
                 return f'x{item[1]}'
             elif item[0] == 'shutdownTask':
@@ -676,7 +796,8 @@ def oracle(scn, res):
             out.append({'clause': 'run_result', 'what': f"run() -> {res['run']}, expected {want_run}"})
     # (e) a fatal source terminates the simulation by itself; harmless ones never do
     if scn['mode'] == 'forever':
-        fatal_fired = any(s[0] in FATAL and r != 'InvalidState' for s, r in res['fired']) or scn['pre_abort'] or scn['init_err']
+        fatal_fired = (any(is_fatal(s) and r != 'InvalidState' for s, r in res['fired']) or scn['pre_abort']
+                       or scn['init_err'] or scn.get('early_init') is not None)
         if bool(fatal_fired) != bool(res['done_before_shutdown']):
             out.append({'clause': 'classification',
                         'what': f"fatal source fired: {bool(fatal_fired)}, simulation ended by itself: {res['done_before_shutdown']}"})
@@ -700,4 +821,15 @@ def oracle(scn, res):
                                     else 'fsm_entry_action_unknown_event_to_self'}})
     if res['ready_end']:
         out.append({'clause': 'not_ready_forever', 'what': 'is_ready() is True after the simulation has stopped'})
+    # (g) a synchronous init routine that failed (also EARLY, with a sender that swallowed the exception) is fatal
+    # and is not given a second chance
+    if scn.get('early_init') is not None:
+        if res['early_reply'] != f'raised:x{EARLY_ID}':
+            out.append({'clause': 'classification', 'what': f"the early event was answered with {res['early_reply']}"})
+        if res['early_calls'] != 1:
+            out.append({'clause': 'failed_init_not_retried',
+                        'what': f"init_regular() of the block whose early initialisation failed was called {res['early_calls']} times"})
+        if res['final_error'] in ('-',) or res['final_error'].startswith('c'):
+            out.append({'clause': 'classification',
+                        'what': f"a failed synchronous init routine did not stop the simulation (Circuit.error {res['final_error']})"})
     return out
